@@ -10,7 +10,7 @@ PROP = "C03"
 MODULES = ["PdsVerif.Props.C03"]
 MODEL_MODULES = ["PdsVerif.Model.Si"]
 REQUIRED = ["PdsVerif.C03." + n for n in [
-    "overlap_save_valid", "overlap_save_lastK", "accumulate_spec", "si_full_count", "si_full_spec", "si_spec_coef",
+    "circConv_eq_idft_dft_mul", "overlap_save_valid", "overlap_save_lastK", "accumulate_spec", "si_full_count", "si_full_spec", "si_spec_coef",
     "si_energy", "si_dtype", "si_dtype_nonfloat", "si_full_spec_gaussian", "si_stream_eq_full", "si_stream_eq_spec",
     "si_stream_chunk", "si_stream_emitted_le",
 ]]
@@ -25,8 +25,9 @@ RULE = (
     "padding x window x float16/32/64 x N x random chunking against a direct np.convolve evaluation."
 )
 TRUSTED = [
-    "DFT convolution theorem: irfft(rfft(b,D)*rfft(h,D)) (ifft/fft for complex banks) is the circular convolution "
-    "`circConv D b h` of Model/Si.lean (exercised by every correspondence case; FFT round-off <= 1e-9 at the magnitudes used)",
+    "np.fft.rfft/irfft (fft/ifft for complex banks) compute NumPy's documented DFT / inverse DFT (round-off <= 1e-9 at the magnitudes "
+    "used); that idft(dft(b,D)*dft(h,D)) is the circular convolution `circConv D b h` of Model/Si.lean is PROVED over the complex "
+    "numbers (circConv_eq_idft_dft_mul, character orthogonality in Lemmas/Dft.lean) and exercised by every correspondence case",
     "semantics of Python slicing / negative-index slices / range(a,b,s) / zip(.., count(k)) / np.roll / reshape(2,S) as "
     "modelled in Model/Si.lean (take, drop, lastK, block enumeration, (take S, drop S))",
     "the model stores y_buf[b,a,i] as ybuf[i][b].(a): a transposition of the same cells",
@@ -57,7 +58,7 @@ LEVEL_TEXT = (
     "the model + oracle runs."
 )
 LEVEL_NOTE = (
-    "Trusted: the DFT convolution theorem (rfft*rfft->irfft = circular convolution), slicing/range semantics, the "
+    "Trusted: NumPy FFT = documented DFT (the convolution theorem is proved: circConv_eq_idft_dft_mul), slicing/range semantics, the "
     "index-formula restatement of the filter preparation, tracer bank/window, Lean kernel + std axioms. Float round-off, "
     "the concrete log floor and dtype casts are covered by the np.convolve oracle on library banks, not by theorems."
 )
